@@ -171,6 +171,16 @@ def check_safety(env, spec, model, d, where):
             if read(os.path.join(d, dp)) != old: v.append(('clobbered', '%s: pre-existing %s was modified or removed without -f' % (where, dp)))
     return v
 
+def expected_ok(env, spec, model, fs):
+    """would an undisturbed run produce a complete destination of its own for this source?"""
+    sname = fs['name'] + ('.zst' if spec['op'] in 'dt' else '')
+    dp = dest_of(spec, fs)
+    if dp is None or spec['op'] == 't': return False
+    if (spec.get('out') or spec.get('stdout')) and len(spec['files']) > 1: return False
+    refused = dp in model['pre'] and '-f' not in spec['flags'] and not spec.get('stdout')
+    ok_lib = True if spec['op'] == 'c' else model['expect'].get(sname) is not None
+    return ok_lib and not refused
+
 def check_end(env, spec, model, d, res):
     """end-state oracle of an undisturbed run"""
     v = check_safety(env, spec, model, d, 'end')
@@ -203,15 +213,20 @@ def run_case(env, spec, tier, only=None):
         for cls, msg in check_end(env, spec, model, d0, res): out['violations'].append(dict(cls=cls, msg=msg, mode='none', k=0))
         modes = [('kill', k) for k in range(1, N + 1)]
         if tier == 'thorough' or spec['idx'] % 3 == 0: modes += [('int', k) for k in range(1, N + 1)]
+        # storage faults: the k-th file-system-mutating call fails with ENOSPC (full disk) or EIO without being executed
+        if tier == 'thorough' or spec['idx'] % 6 == 1: modes += [('enospc', k) for k in range(1, N + 1)]
+        if tier == 'thorough' or spec['idx'] % 6 == 4: modes += [('eio', k) for k in range(1, N + 1)]
         if only: modes = [only]
         for mode, k in modes:
             dk = os.path.join(base, '%s%d' % (mode, k)); mk = materialize(env, spec, dk)
             rk = run_sup(env, spec, mk, dk, mode=mode, k=k); out['evals'] += 1
             if mode == 'kill': out['kills'] += 1
-            else: out['sigints'] += 1
+            elif mode == 'int': out['sigints'] += 1
+            else: out['ioerrs'] = out.get('ioerrs', 0) + 1
+            if rk['count'] < 0: out['violations'].append(dict(cls='hang', msg='%s at mutating call %d/%d: %s' % (mode, k, N, rk['at']), mode=mode, k=k)); shutil.rmtree(dk, ignore_errors=True); continue
             if not rk['fired']:
                 if rk['count'] != N: out['nondet'] += 1
-            where = '%s at mutating call %d/%d (%s)' % ('SIGKILL' if mode == 'kill' else 'SIGINT', k, N, rk['at'])
+            where = '%s at mutating call %d/%d (%s)' % ({'kill': 'SIGKILL', 'int': 'SIGINT', 'enospc': 'ENOSPC', 'eio': 'EIO'}[mode], k, N, rk['at'])
             for cls, msg in check_safety(env, spec, mk, dk, where): out['violations'].append(dict(cls=cls, msg=msg, mode=mode, k=k))
             if mode == 'int' and rk['fired']:
                 for fs in spec['files']:
@@ -220,8 +235,19 @@ def run_case(env, spec, tier, only=None):
                     # artefact handler (addHandler() follows FIO_openDstFile()); the property's crash clause only demands data safety there
                     if dp and dp not in mk['pre'] and not spec.get('stdout') and (read(os.path.join(dk, dp)) or b'') != b'' and not dest_complete(env, spec, mk, dk, fs):
                         out['violations'].append(dict(cls='sigint_artefact', msg='%s: partial destination %s left behind' % (where, dp), mode=mode, k=k))
+            if mode in ('enospc', 'eio') and rk['fired']:
+                # the run went to its end with one failed call: exit 0 only if nothing was lost; a failed operation leaves no output behind
+                incomplete = [dest_of(spec, fs) for fs in spec['files'] if dest_of(spec, fs) and not dest_complete(env, spec, mk, dk, fs)]
+                if rk['exit'] == 0 and incomplete and spec['op'] != 't' and not spec.get('stdout'):
+                    ok_verdicts = [fs for fs in spec['files'] if dest_of(spec, fs) in incomplete and expected_ok(env, spec, mk, fs)]
+                    if ok_verdicts: out['violations'].append(dict(cls='ioerror_swallowed', msg='%s: exit status 0 although %s is missing or incomplete' % (where, incomplete[0]), mode=mode, k=k))
+                if rk['exit'] != 0:
+                    for fs in spec['files']:
+                        dp = dest_of(spec, fs)
+                        if dp and dp not in mk['pre'] and not spec.get('stdout') and (read(os.path.join(dk, dp)) or b'') != b'' and not dest_complete(env, spec, mk, dk, fs):
+                            out['violations'].append(dict(cls='ioerror_artefact', msg='%s: zstd exits %d and leaves the partial destination %s behind' % (where, rk['exit'], dp), mode=mode, k=k)); break
             shutil.rmtree(dk, ignore_errors=True)
-            if len(out['violations']) > 3: break
+            if len([v for v in out['violations'] if v['cls'] != 'ioerror_artefact']) > 3: break
     finally:
         shutil.rmtree(base, ignore_errors=True)
     return out
@@ -229,11 +255,12 @@ def run_case(env, spec, tier, only=None):
 def check(prop, tier, root, ncases):
     t0 = time.time(); cdir = vlib.build_cli(); env = Env(cdir)
     specs = [gen_case(root, i, tier) for i in range(ncases)]
-    tot = dict(evals=0, kills=0, sigints=0, cases=0, nondet=0); fails = []; sigs = set(); Ns = []
+    tot = dict(evals=0, kills=0, sigints=0, ioerrs=0, cases=0, nondet=0); fails = []; sigs = set(); Ns = []
     with ThreadPoolExecutor(max_workers=vlib.NCPU) as ex:
         for spec, out in zip(specs, ex.map(lambda s: run_case(env, s, tier), specs)):
             tot['cases'] += 1
             for k in ('evals', 'kills', 'sigints', 'nondet'): tot[k] += out[k]
+            tot['ioerrs'] += out.get('ioerrs', 0)
             Ns.append(out['N']); sigs.add(json.dumps([spec['op'], spec['flags'], [(f['kind'], f['size'], f.get('variant')) for f in spec['files']], bool(spec.get('dict')), spec.get('out'), spec.get('stdout'), spec.get('outdir'), spec.get('preexisting')], sort_keys=True))
             for v in out['violations']: fails.append((spec, v))
     violations = 0; known = []; infra = []
@@ -257,13 +284,13 @@ def check(prop, tier, root, ncases):
         violations += 1; print('VIOLATION property=%s replay=%s' % (prop, path), flush=True); log('   class=%s msg=%s' % (v['cls'], v['msg']))
     wall = time.time() - t0
     samples = [dict(case=s['idx'], argv=' '.join(cli_args(Env('<cli>'), s, dict(dictpath=s.get('dict')))), files=s['files'], preexisting=bool(s.get('preexisting'))) for s in specs[:3]]
-    cov = dict(evaluations=tot['evals'], distinct_nontrivial=len(sigs), rule='one evaluation = one supervised execution of the real zstd binary (dry run, or killed/interrupted at one mutating system call); per invocation EVERY k in 1..N is killed with SIGKILL (and every k with SIGINT for a third of the invocations; all in thorough); distinct = distinct invocation shapes (operation, flags, file kinds/sizes/variants, dictionary, output mode, pre-existing destination); non-trivial = every shape runs at least its dry run + N kills',
+    cov = dict(evaluations=tot['evals'], distinct_nontrivial=len(sigs), rule='one evaluation = one supervised execution of the real zstd binary (dry run, or killed/interrupted at one mutating system call); per invocation EVERY k in 1..N is killed with SIGKILL (and, for a third of the invocations, every k is interrupted with SIGINT; for another third every k is made to fail with ENOSPC or EIO without being executed; all of these for every invocation in thorough); distinct = distinct invocation shapes (operation, flags, file kinds/sizes/variants, dictionary, output mode, pre-existing destination); non-trivial = every shape runs at least its dry run + N kills',
                samples=samples, invocations=tot['cases'], kill_points=tot['kills'], sigint_points=tot['sigints'], mutating_calls_per_invocation=dict(min=min(Ns) if Ns else 0, max=max(Ns) if Ns else 0, mean=round(sum(Ns) / max(1, len(Ns)), 1)),
-               runs_per_hour=int(tot['evals'] / max(wall, 0.001) * 3600), faults_fired=dict(sigkill_at_syscall=tot['kills'], sigint_at_syscall=tot['sigints']), nondeterministic_counts=tot['nondet'], exhaustive=True,
+               runs_per_hour=int(tot['evals'] / max(wall, 0.001) * 3600), faults_fired=dict(sigkill_at_syscall=tot['kills'], sigint_at_syscall=tot['sigints'], enospc_or_eio_at_syscall=tot['ioerrs']), nondeterministic_counts=tot['nondet'], exhaustive=True,
                components_real=['programs/*.c + lib/ built from /repo (real zstd CLI)', 'kernel file system (tmpfs under /dev/shm)'], components_stub=['pthread primitives inside the CLI (simsched: deterministic system-call order)', 'process death / signals (ptrace supervisor cli/clisup.c)', 'library verdict helper cli/zcheck.c'],
                known_findings_printed=known)
-    vlib.write_evidence(prop, tier, root, 'fault_enumeration', cov, wall, violations, ['crash model = process death (SIGKILL) or SIGINT at the entry of a file-system-mutating system call; power loss with unsynced page cache is not modelled (zstd never fsyncs and the property does not claim it)', 'writes to fd 1/2 are not kill points', 'the library verdict comes from cli/zcheck.c (streaming decode with the same dictionary)'])
-    log('[%s] %s: %d invocations, %d supervised executions (%d kill points, %d SIGINT points), %d violations, %d infra, %.1fs' % (prop, tier, tot['cases'], tot['evals'], tot['kills'], tot['sigints'], violations, len(infra), wall))
+    vlib.write_evidence(prop, tier, root, 'fault_enumeration', cov, wall, violations, ['crash model = process death (SIGKILL) or SIGINT at the entry of a file-system-mutating system call; storage-fault model = that call returns ENOSPC / EIO without being executed (the process goes on); power loss with unsynced page cache is not modelled (zstd never fsyncs and the property does not claim it)', 'writes to fd 1/2 are not kill points', 'the library verdict comes from cli/zcheck.c (streaming decode with the same dictionary)'])
+    log('[%s] %s: %d invocations, %d supervised executions (%d kill points, %d SIGINT points, %d failed-call points), %d violations, %d infra, %.1fs' % (prop, tier, tot['cases'], tot['evals'], tot['kills'], tot['sigints'], tot['ioerrs'], violations, len(infra), wall))
     for i in infra: log('[%s] INFRASTRUCTURE: %s' % (prop, i))
     if violations: return 1
     if infra or tot['nondet'] > tot['evals'] // 50: return 2
